@@ -88,6 +88,7 @@ var specs = map[string]*propSpec{
 	"C04": chainSpec("C04", "exploration"),
 	"C07": c07Spec(),
 	"C11": c11Spec(),
+	"C17": c17Spec(),
 	"C05": chainSpec("C05", "exploration"),
 }
 
@@ -131,5 +132,19 @@ func c11Spec() *propSpec {
 	s.Thorough = tierParams{Runs: 12000, BudgetS: 1200, PerRunS: 900, RaceRuns: 1500, RaceBudgetS: 900, ShrinkAttempts: 300, ShrinkS: 400}
 	s.Rule = "one case = a history of 6-14 fan-out blocks (8-45 transactions: several hashing packs, more than 32 spent and created records, in-block spend chains) with a snapshot started (Idle / operator save, paced 0-5 s) before most blocks so that the next block aborts it in an arbitrary phase, HurryUp, forced map defragmentation, Close during a save, clean restarts; yield probability 0.05-0.5 at every scheduling point, seeded lock hand-over, timers racing with runnable goroutines. Oracles: verdicts, tip and decoded unspent set equal the reference ledger (schedule independence); every snapshot is parsed at the instant it is renamed to UTXO.db and must equal the ledger's unspent set of exactly the block in its header; no *.db.tmp survives Close; no deadlock; the race-detector arm repeats seeds with the simulator's hand-over edges hidden. distinct_nontrivial = distinct (schedule-trace hash, final state)."
 	s.ExpectProbes = []string{"snapshot_became_visible", "defrag_map", "reorg", "idle_started_save", "explicit_save"}
+	return s
+}
+
+func c17Spec() *propSpec {
+	s := chainSpec("C17", "exploration")
+	s.Quick = tierParams{Runs: 320, BudgetS: 60, PerRunS: 300, RaceRuns: 24, RaceBudgetS: 45, ShrinkAttempts: 80, ShrinkS: 120}
+	s.Thorough = tierParams{Runs: 16000, BudgetS: 1200, PerRunS: 900, RaceRuns: 1000, RaceBudgetS: 600, ShrinkAttempts: 300, ShrinkS: 400}
+	s.Rule = "one case = a chain history as in C06 (reorganisations, invalid blocks, restarts; 30% with fan-out blocks whose 32-record insert/delete batches fire the callbacks concurrently) with client/wallet attached the way the client does it (LoadBalancesFromUtxo installs NotifyTxAdd/Del), list->map switch-over at 2-6 outputs, minimum value 0 / 1000 / 5 / 15 / 25 BTC, outputs to ~70 addresses of the five indexed types plus OP_TRUE, OP_RETURN and odd scripts, index switched off and rebuilt from the populated set mid-history. After every delivery, for every address ever paid: the (txid, vout, value, height, coinbase) multiset from wallet.GetAllUnspent equals the projection of the reference ledger's unspent set at or above the minimum, and per address type the number of addresses, outputs and the total from wallet.Browse equal the projection's."
+	s.Components = map[string][]string{
+		"real":      append([]string{"client/wallet (instrumented)", "client/common (instrumented; configuration globals)"}, chainComponents["real"]...),
+		"simulated": chainComponents["simulated"],
+		"restated":  append([]string{"client/init.go wiring: common.BlockChain, home dir, AllBalances options, then wallet.LoadBalancesFromUtxo()"}, chainComponents["restated"]...),
+	}
+	s.ExpectProbes = []string{"wallet_compared", "index_switched_off", "index_built_from_populated_set", "reorg"}
 	return s
 }
